@@ -46,13 +46,15 @@ example : (⟨0x40e5888000000000, 0x4150000000000000, 1,
 
 /-- 2.x overview waveform.  `Ovw.Valid` = three bytes per point, a three-byte
 maximum point, fewer than 2^63 points (true of every C++ value). -/
-theorem C03_v2_ovw_roundtrip (v : Ovw) (extra : Bytes) (h : v.Valid) :
+theorem C03_v2_ovw_roundtrip (v : Ovw) (extra : Bytes) (h : v.Valid)
+    (hlen : 27 + v.points.length + extra.length < maxCount) :
     ∃ b, encodeOvw v extra = .ok b ∧ decodeOvw b = .ok (v, extra) := by
   refine ⟨_, encodeOvw_ok v h extra, ?_⟩
-  rw [decodeOvw_eq]
+  rw [decodeOvw_eq _ (by rw [List.length_append, ovw_enc_length, h.2.2]; omega)]
   exact liftDec_of_dec (ovw_sound v h extra)
 
-example : (⟨0x4090000000000000, [1, 2, 3, 4, 5, 6], [4, 5, 6]⟩ : Ovw).Valid := by
+example : (⟨0x4090000000000000, [1, 2, 3, 4, 5, 6], [4, 5, 6]⟩ : Ovw).Valid ∧
+    27 + (⟨0x4090000000000000, [1, 2, 3, 4, 5, 6], [4, 5, 6]⟩ : Ovw).points.length + ([] : Bytes).length < maxCount := by
   unfold Ovw.Valid maxCount; decide
 
 /-- The encodable domain of 2.x quick cues: every label at most 255 bytes. -/
@@ -315,13 +317,14 @@ theorem C03_absent_only_reserved :
 
 /-- Overview waveform: the three value channels come back; the format has no opacity channel and
 the decoder supplies 255. -/
-theorem C03_v1_ovw_readback (v : Impl.V1.Wave) (hrep : v.entries.length < maxCount) :
+theorem C03_v1_ovw_readback (v : Impl.V1.Wave) (hrep : 27 + 3 * v.entries.length < maxCount) :
     ∃ b, Impl.V1.encodeOvw v = .ok b ∧ Impl.V1.decodeOvw b = .ok ⟨v.spe, v.entries.map opaq⟩ := by
   obtain ⟨b, hs, hi⟩ := encodeOvw_ok v
   refine ⟨b, hi, ?_⟩
-  rw [V1Proofs.decodeOvw_eq, spec_ovw_roundtrip v hrep b hs]; rfl
+  have hb : b.length = 27 + 3 * v.entries.length := Impl.V2.writeInto_length hi
+  rw [V1Proofs.decodeOvw_eq b (by omega), spec_ovw_roundtrip v (by omega) b hs]; rfl
 
-theorem C03_v1_ovw_roundtrip (v : Impl.V1.Wave) (hrep : v.entries.length < maxCount)
+theorem C03_v1_ovw_roundtrip (v : Impl.V1.Wave) (hrep : 27 + 3 * v.entries.length < maxCount)
     (hop : ∀ e ∈ v.entries, e.lo = 255 ∧ e.mo = 255 ∧ e.ho = 255) :
     ∃ b, Impl.V1.encodeOvw v = .ok b ∧ Impl.V1.decodeOvw b = .ok v := by
   obtain ⟨b, h1, h2⟩ := C03_v1_ovw_readback v hrep
@@ -336,13 +339,14 @@ theorem C03_v1_ovw_roundtrip (v : Impl.V1.Wave) (hrep : v.entries.length < maxCo
     | mk lv mv hv lo mo ho => simp only at a b c; subst a b c; rfl
   rw [this]
 
-theorem C03_v1_hires_roundtrip (v : Impl.V1.Wave) (hrep : v.entries.length < maxCount) :
+theorem C03_v1_hires_roundtrip (v : Impl.V1.Wave) (hrep : 30 + 6 * v.entries.length < maxCount) :
     ∃ b, Impl.V1.encodeHires v = .ok b ∧ Impl.V1.decodeHires b = .ok v := by
   obtain ⟨b, hs, hi⟩ := encodeHires_ok v
   refine ⟨b, hi, ?_⟩
-  rw [V1Proofs.decodeHires_eq, spec_hires_roundtrip v hrep b hs]; rfl
+  have hb : b.length = 30 + 6 * v.entries.length := Impl.V2.writeInto_length hi
+  rw [V1Proofs.decodeHires_eq b (by omega), spec_hires_roundtrip v (by omega) b hs]; rfl
 
-example : (⟨0x4090000000000000, [⟨1, 2, 3, 255, 255, 255⟩, ⟨9, 8, 7, 255, 255, 255⟩]⟩ : Impl.V1.Wave).entries.length
+example : 30 + 6 * (⟨0x4090000000000000, [⟨1, 2, 3, 255, 255, 255⟩, ⟨9, 8, 7, 255, 255, 255⟩]⟩ : Impl.V1.Wave).entries.length
     < maxCount := by decide
 
 end V1
